@@ -342,4 +342,116 @@ example (k : Nat) (kind : StreamKind) (isLazy : Bool) (rp : LoadRes)
     (prefixLoadedC_of_load exImg2 exImg2_wf {} rfl k kind isLazy rp hp hok) 2 (by decide +kernel) (by decide +kernel) v
   exact ⟨o2, out, h, h'⟩
 
+/-! ### 3. symbol lookup by name on a truncated file -/
+
+theorem settleOpt_prefix_some (img : Bytes) (k : Nat) (o : Obj) (hP : PrefixLoadedC img k o) (j : Nat) (s : SecBuf)
+    (h : (TQ.settleOpt o j).2 = some s) : PReady img j s ∧ LoadedSec [] s (img.take k) := by
+  obtain ⟨_, ha, hb⟩ := settleOpt_prefix img k o hP j
+  by_cases hj : j < eh img "e_shnum"
+  · obtain ⟨s', e, hR, hLS⟩ := ha hj
+    rw [e] at h; cases h; exact ⟨hR, hLS⟩
+  · rw [hb (Nat.le_of_not_lt hj)] at h; cases h
+
+/-- what `get_data()` hands out on a loaded prefix is a section C18's totality theorems accept -/
+theorem sec_of_pready {img : Bytes} {k i : Nat} {b : SecBuf} (hR : PReady img i b)
+    (hLS : LoadedSec [] b (img.take k)) : C18.Sec b :=
+  ⟨hR.settled, fun d hd => by have := hLS.len d hd; omega⟩
+
+theorem small_of_loadedSec {img : Bytes} {k : Nat} {b : SecBuf} (hLS : LoadedSec [] b (img.take k))
+    (hlen : img.length < 4294967296) : C18.Small b := by
+  intro d hd
+  obtain ⟨_, e2, _⟩ := C17.LoadedSec.prefix_exact hLS hd
+  rw [slice_length] at e2
+  omega
+
+/-- the accessor `symTabFor` builds on a loaded prefix touches only sections C18's totality theorems accept -/
+theorem symTabFor_prefix_ok (img : Bytes) (k : Nat) (o : Obj) (hP : PrefixLoadedC img k o) (i : Nat)
+    (hi : i < eh img "e_shnum") :
+    ∃ o2 t, TQ.symTabFor o i = some (o2, t) ∧ C18.TabOk t ∧
+      (img.length < 4294967296 → ∀ h, t.hash = some h → C18.Small h) := by
+  obtain ⟨o1, b1, h1, hP1, hR, hLS, _, _⟩ := prefix_secResident_c img k o hP i hi
+  have hs : TQ.settle o i = some (o1, b1) := h1
+  obtain ⟨hP2, _, _⟩ := settleOpt_prefix img k o1 hP1 (tq_sym_strtab_index b1.link).toNat
+  unfold TQ.symTabFor
+  simp only [hs]
+  refine ⟨_, _, rfl, ⟨sec_of_pready hR hLS, ?_, ?_⟩, ?_⟩
+  · intro b hb
+    obtain ⟨hRb, hLb⟩ := settleOpt_prefix_some img k o1 hP1 _ b hb
+    exact sec_of_pready hRb hLb
+  · intro b hb
+    simp only [] at hb
+    split at hb
+    · obtain ⟨hRb, hLb⟩ := settleOpt_prefix_some img k _ hP2 _ b hb
+      exact sec_of_pready hRb hLb
+    · cases hb
+  · intro hlen b hb
+    simp only [] at hb
+    split at hb
+    · obtain ⟨_, hLb⟩ := settleOpt_prefix_some img k _ hP2 _ b hb
+      exact small_of_loadedSec hLb hlen
+    · cases hb
+
+/-- **prefix_byname_sound_partial** (C17 for `symbol_section_accessor::get_symbol(name, …)`, the code after
+    fixes/11–13): on a prefix of a well-formed image (shorter than 4 GiB) that loads, for a symbol table `i` with the
+    class's entry size whose names in the COMPLETE file are terminated strings (`ValidNames`, as in
+    `byname_reports_spec`), the by-name lookup RETURNS for every name — whatever hash section the prefix shows — and,
+    unless the accessor's symbol section or its linked string section has a null data pointer (their bytes are not in
+    the prefix), it answers exactly as the specification demands of the COMPLETE file (`ByNameSpec img i`, what
+    `byname_reports_spec` says the complete file's load reports).
+    PARTIAL: in the two null-data cases only the return is proved here (not that the answer is `false` / the
+    empty-name answer); that needs the hash walks' congruence in `getSymbol` and stays correspondence-checked. -/
+theorem prefix_byname_sound_partial (img : Bytes) (k : Nat) (o : Obj) (hP : PrefixLoadedC img k o) (i : Nat)
+    (hi : i < eh img "e_shnum") (hent : sh img i "sh_entsize" = Spec.symSize (clsOf img))
+    (hv : SymTab.ValidNames (cfgOf img) (secFileBytes img i) (linkedBytes img i))
+    (hlen : img.length < 4294967296) (name : Bytes) :
+    ∃ o2 t r a', TQ.symTabFor o i = some (o2, t) ∧
+      TQ.runQuery o (.symByName i name) = .ok (o2, .byName (r, a')) ∧ PrefixLoadedC img k o2 ∧
+      (t.sym.data = none ∨ (∃ s, t.str = some s ∧ secData s = none) ∨ ByNameSpec img i name r a') := by
+  obtain ⟨o2, t, h1, hP2, hcfg, hR, hLS, hstr⟩ := symTabFor_prefix img k o hP i hi
+  obtain ⟨o2', t', h1', hTab, hSmall⟩ := symTabFor_prefix_ok img k o hP i hi
+  rw [h1] at h1'
+  cases h1'
+  obtain ⟨⟨r, a'⟩, e⟩ := C18.sym_by_name_total t hTab (hSmall hlen) name {}
+  refine ⟨o2, t, r, a', h1, by simp only [TQ.runQuery, h1, e, TQ.liftQ]; rfl, hP2, ?_⟩
+  cases hd : t.sym.data with
+  | none => exact Or.inl rfl
+  | some d =>
+    right
+    have hdn : t.sym.data ≠ none := by rw [hd]; exact fun h => by cases h
+    obtain ⟨hstr0, hstr1⟩ := hstr hdn
+    rcases hR.data with hd' | ⟨hF, hocc, hvw, hn, hss⟩
+    · exact absurd hd' hdn
+    · have hRA := readsAs_pready hR.settled hvw hn d hd
+      have hent' : t.sym.entSize = BitVec.ofNat 64 (SymTab.symSizeOf t.cfg.cls) := by
+        rw [hcfg]
+        exact ofNat_toNat64 _ _ (by rw [hF.entSize, hent, SymTab.symSizeOf_eq])
+      have hv' : SymTab.ValidNames t.cfg (secFileBytes img i) (linkedBytes img i) := by rw [hcfg]; exact hv
+      cases hs : t.str with
+      | none =>
+        right
+        have hW : SymTab.Wf t (secFileBytes img i) (linkedBytes img i) :=
+          ⟨hent', hss, hRA, by simp only [hs, hstr0 hs]⟩
+        have := TQSound.lookup_name hW hv' name {} r a' e
+        rw [hcfg] at this
+        exact this
+      | some s =>
+        rcases hstr1 s hs with hsn | hsr
+        · exact Or.inl ⟨s, rfl, hsn⟩
+        · right
+          have hW : SymTab.Wf t (secFileBytes img i) (linkedBytes img i) :=
+            ⟨hent', hss, hRA, by simp only [hs]; exact hsr⟩
+          have := TQSound.lookup_name hW hv' name {} r a' e
+          rw [hcfg] at this
+          exact this
+
+example (k : Nat) (kind : StreamKind) (isLazy : Bool) (rp : LoadRes)
+    (hp : load {} { data := exImg2.take k, kind := kind } isLazy = .ok rp) (hok : rp.ok = true) (name : Bytes) :
+    ∃ o2 t r a', TQ.symTabFor rp.obj 2 = some (o2, t) ∧
+      TQ.runQuery rp.obj (.symByName 2 name) = .ok (o2, .byName (r, a')) ∧
+      (t.sym.data = none ∨ (∃ s, t.str = some s ∧ secData s = none) ∨ ByNameSpec exImg2 2 name r a') := by
+  obtain ⟨o2, t, r, a', h0, h, _, h'⟩ := prefix_byname_sound_partial exImg2 k rp.obj
+    (prefixLoadedC_of_load exImg2 exImg2_wf {} rfl k kind isLazy rp hp hok) 2 (by decide +kernel) (by decide +kernel)
+    (by decide +kernel) (by decide +kernel) name
+  exact ⟨o2, t, r, a', h0, h, h'⟩
+
 end ElfioVerif.ComposeTables
